@@ -231,6 +231,9 @@ func (w *World) newProvider(t testing.TB, cfg Config) *Chain {
 	c := &Chain{W: w, Name: "p", IsProv: true, PApp: papp, Engine: map[string]int64{}}
 	c.initChain(t, app, chainID, genesis)
 	n.Gov = papp.ProviderKeeper.GetAuthority()
+	if ga, err := sdk.AccAddressFromBech32(n.Gov); err == nil {
+		govAddrBytes = ga
+	}
 	return c
 }
 
@@ -261,6 +264,13 @@ func (w *World) newConsumer(t testing.TB, consumerID string) *Chain {
 	cg.PreCCV = gen.PreCCV
 	cg.ConnectionId = gen.ConnectionId
 	genesis[consumertypes.ModuleName] = cdc.MustMarshalJSON(&cg)
+
+	var sg slashingtypes.GenesisState
+	cdc.MustUnmarshalJSON(genesis[slashingtypes.ModuleName], &sg)
+	sg.Params.SignedBlocksWindow = w.Cfg.SignedWindow
+	sg.Params.MinSignedPerWindow = sdkmath.LegacyMustNewDecFromStr(w.Cfg.MinSigned)
+	sg.Params.DowntimeJailDuration = time.Duration(w.Cfg.DowntimeJail) * time.Second
+	genesis[slashingtypes.ModuleName] = cdc.MustMarshalJSON(&sg)
 
 	var accounts []authtypes.GenesisAccount
 	var balances []banktypes.Balance
@@ -444,6 +454,19 @@ func (c *Chain) ProduceBlock(txs []TxSpec, dt int64, absent map[string]bool) *Bl
 	}
 	if _, err := c.App.Commit(); err != nil {
 		panic(err)
+	}
+	// CometBFT cannot run with an empty validator set: the environment stops this chain here
+	if len(res.ValidatorUpdates) > 0 {
+		changes, err := cmttypes.PB2TM.ValidatorUpdates(res.ValidatorUpdates)
+		if err == nil {
+			if err := c.NextVals.Copy().UpdateWithChangeSet(changes); err != nil {
+				c.Halted = true
+				br.Err = ""
+				w.rec.blockEvents(c, txs, br)
+				w.rec.emit(c.Name, "EnvHalt", map[string]any{"why": trunc(err.Error(), 100)}, nil, nil)
+				return br
+			}
+		}
 	}
 	// header bookkeeping (mirrors ibctesting.TestChain.commitBlock)
 	c.LatestCommittedHeader = c.CurrentTMClientHeader()
